@@ -45,13 +45,18 @@ func (s *Sim) oracleUnsubscribe(c *Client, r *CReq, f *Frame, n int) {
 	if !r.Valid {
 		return
 	}
+	if f.Error == nil && !r.BadCnt && c.provisionalOn(r) {
+		// accepted while a provisional count existed: whether or not the model's
+		// count covered it, the gateway's bookkeeping for this rid is now open to F-3
+		c.F3rids[r.RID] = true
+	}
 	if c.Tainted != "" {
 		return
 	}
 	s.stat("oracle.C08.a", 1)
 	if r.BadCnt {
 		if f.Error == nil || f.Error.Code != "system.invalidParams" {
-			s.violate("C08", "a", "badcount", "client %s: unsubscribe %s with invalid count %s was not refused with system.invalidParams: %s", c.Name, r.RID, r.Params, trunc(f.Raw, 200))
+			c.violate("C08", "a", "badcount", "client %s: unsubscribe %s with invalid count %s was not refused with system.invalidParams: %s", c.Name, r.RID, r.Params, trunc(f.Raw, 200))
 		}
 		return
 	}
@@ -70,45 +75,56 @@ func (s *Sim) oracleUnsubscribe(c *Client, r *CReq, f *Frame, n int) {
 	}
 	if cnt <= n {
 		if f.Error != nil {
-			s.violate("C08", "a", "refused-"+shape, "client %s: unsubscribe %s count %d refused (%s) although the client has %d direct subscriptions", c.Name, r.RID, cnt, f.Error.Code, n)
+			c.violate("C08", "a", "refused-"+shape, "client %s: unsubscribe %s count %d refused (%s) although the client has %d direct subscriptions", c.Name, r.RID, cnt, f.Error.Code, n)
 		}
 	} else {
 		if f.Error == nil && pendingSame {
-			c.Tainted = "F-3"
-			s.stat("tainted_clients", 1)
+			if c.Tainted == "" {
+				c.Tainted = "F-3"
+				s.stat("tainted_clients", 1)
+			}
+			c.F3rids[r.RID] = true
 		}
 		if f.Error == nil {
-			s.violate("C08", "a", "accepted-"+shape, "client %s: unsubscribe %s count %d succeeded although the client has only %d direct subscriptions", c.Name, r.RID, cnt, n)
+			c.violate("C08", "a", "accepted-"+shape, "client %s: unsubscribe %s count %d succeeded although the client has only %d direct subscriptions", c.Name, r.RID, cnt, n)
 		} else if f.Error.Code != "system.noSubscription" {
-			s.violate("C08", "a", "wrongcode-"+shape, "client %s: unsubscribe %s count %d failed with %s instead of system.noSubscription", c.Name, r.RID, cnt, f.Error.Code)
+			c.violate("C08", "a", "wrongcode-"+shape, "client %s: unsubscribe %s count %d failed with %s instead of system.noSubscription", c.Name, r.RID, cnt, f.Error.Code)
 		}
 	}
 }
 
 // provisionalOn reports whether some unanswered request of this connection may
-// hold a provisional direct subscription on the rid of unsubscribe request r:
-// an earlier subscribe/get/new for the same rid, or a call/auth/new whose
-// service answer (seen at the seam) was a resource response naming that rid.
+// hold a provisional direct subscription on the rid of unsubscribe request r.
 func (c *Client) provisionalOn(r *CReq) bool {
+	return c.provisionalRID(r.RID, r)
+}
+
+// provisionalRID: an unanswered subscribe/get for rid, or an unanswered
+// call/auth/new whose service answer (seen at the seam) was a resource
+// response naming rid, holds a provisional direct count on rid.
+func (c *Client) provisionalRID(rid string, except *CReq) bool {
 	for _, o := range c.ReqL {
-		if o != r && o.Resp == nil && o.ID < r.ID && o.Action != "unsubscribe" && o.Action != "version" {
-			if o.RID == r.RID && (o.Action == "subscribe" || o.Action == "get") {
-				return true
+		if o == except || o.Resp != nil || o.Action == "unsubscribe" || o.Action == "version" {
+			continue
+		}
+		if except != nil && o.ID > except.ID {
+			continue
+		}
+		if o.RID == rid && (o.Action == "subscribe" || o.Action == "get") {
+			return true
+		}
+		if o.Action == "call" || o.Action == "auth" || o.Action == "new" {
+			want := c.s.canon(c.expandCID("rid:" + rid))
+			c.s.mu.Lock()
+			hit := false
+			for _, q := range c.s.tr.reqs {
+				if q.CIdx == c.CIdx && (q.Type == "call" || q.Type == "auth") && q.Answered && q.Seq > o.Seq && c.s.canonLocked(q.Outcome) == want {
+					hit = true
+				}
 			}
-			if o.Action == "call" || o.Action == "auth" || o.Action == "new" {
-				// its service answer may name any rid
-				want := "rid:" + r.RID
-				c.s.mu.Lock()
-				hit := false
-				for _, q := range c.s.tr.reqs {
-					if q.CIdx == c.CIdx && (q.Type == "call" || q.Type == "auth") && q.Answered && c.s.canonLocked(q.Outcome) == c.s.canonLocked(c.expandCID(want)) {
-						hit = true
-					}
-				}
-				c.s.mu.Unlock()
-				if hit {
-					return true
-				}
+			c.s.mu.Unlock()
+			if hit {
+				return true
 			}
 		}
 	}
@@ -136,11 +152,17 @@ func (s *Sim) stepInvariants() {
 			s.checkEventUnsub(ev.NS[6:], time.Duration(ev.Time))
 		}
 	}
-	// record uses for C09.d
+	// C09.d: a request naming the resource is a use of its cache entry from the
+	// moment it is sent until its answer is delivered
 	if s.lastUse == nil {
 		s.lastUse = map[string]time.Duration{}
 	}
-	for name := range s.namesInUse() {
+	for _, ev := range log[from:] {
+		if (ev.Kind == "req" || ev.Kind == "dlv") && ev.Req != nil && ev.Req.Name != "" && ev.Req.Type != "query" {
+			s.lastUse[ev.Req.Name] = time.Duration(ev.Time)
+		}
+	}
+	for name := range s.namesRequested() {
 		s.lastUse[name] = now
 	}
 	s.throttleStep()
@@ -149,23 +171,12 @@ func (s *Sim) stepInvariants() {
 	}
 }
 
-// namesInUse: resource names some client holds, or some pending request names.
-func (s *Sim) namesInUse() map[string]string {
+// namesRequested: resource names that a request still in flight at the seam
+// names. While such a request is pending the cache entry is in use.
+func (s *Sim) namesRequested() map[string]string {
 	use := map[string]string{}
 	if s.gwStopped {
 		return use
-	}
-	for _, c := range s.Clients {
-		if c.State != "open" || c.eofSeen() {
-			continue
-		}
-		for rid, r := range c.Cache {
-			if r.Kind == 'e' || r.Deleted {
-				continue
-			}
-			name, _ := splitRID(c.expandCID(rid))
-			use[name] = "client " + c.Name + " holds " + rid
-		}
 	}
 	s.mu.Lock()
 	for _, r := range s.tr.reqs {
@@ -174,6 +185,24 @@ func (s *Sim) namesInUse() map[string]string {
 		}
 	}
 	s.mu.Unlock()
+	return use
+}
+
+// namesHeld: resource names of non-deleted resources that some open client holds.
+func (s *Sim) namesHeld() map[string]string {
+	use := map[string]string{}
+	for _, c := range s.Clients {
+		if c.State != "open" || c.eofSeen() || c.Tainted != "" || c.Failed != "" {
+			continue
+		}
+		for rid, r := range c.Cache {
+			if r.Kind == 'e' || r.Deleted || r.Ambiguous {
+				continue
+			}
+			name, _ := splitRID(c.expandCID(rid))
+			use[name] = "client " + c.Name + " holds " + rid
+		}
+	}
 	return use
 }
 
@@ -188,13 +217,8 @@ func (s *Sim) checkEventUnsub(name string, at time.Duration) {
 		return
 	}
 	s.stat("oracle.C09.c", 1)
-	if why, ok := s.namesInUse()[name]; ok {
-		if res := s.W.Res[name]; res != nil {
-			if v := res.V[""]; v != nil && v.Deleted && !res.IsQuery {
-				return // after a delete the service sends nothing more; nothing to keep
-			}
-		}
-		s.violate("C09", "c", "unsubscribed-in-use", "event.%s was unsubscribed while %s", name, why)
+	if why, ok := s.namesRequested()[name]; ok {
+		s.violate("C09", "c", "unsubscribed-request-pending", "event.%s was unsubscribed while %s", name, why)
 		return
 	}
 	delay := 5 * time.Second
@@ -243,27 +267,158 @@ func (s *Sim) oracleQuiescence() {
 		for _, r := range c.ReqL {
 			s.stat("oracle.C07.b", 1)
 			if r.RespN == 0 {
-				shape := "plain"
-				if c.Tainted != "" {
-					shape = "unsubscribed-while-pending"
-				}
-				if r.Action != "unsubscribe" {
-					for _, o := range c.ReqL {
-						if o.Action == "unsubscribe" && o.RID == r.RID && o.ID > r.ID && o.Resp != nil && o.Resp.Error == nil && o.Resp.Step <= s.Step {
-							shape = "unsubscribed-while-pending"
-						}
-					}
-				}
-				s.violate("C07", "b", "unanswered-"+shape, "client %s: request %d (%s) never received a response although every service request has been answered or timed out", c.Name, r.ID, r.Method)
+				shape := s.unansweredShape(c, r)
+				c.violate("C07", "b", "unanswered-"+shape, "client %s: request %d (%s) never received a response although every service request has been answered or timed out", c.Name, r.ID, r.Method)
 			}
 		}
 		if c.Tainted == "" {
 			s.checkConvergence(c)
 		}
 	}
+	// C09.c at quiescence: whatever a client still holds is kept subscribed
+	for name, why := range s.namesHeld() {
+		s.stat("oracle.C09.c_quiescence", 1)
+		if res := s.W.Res[name]; res != nil && !res.IsQuery {
+			if v := res.V[""]; v != nil && v.Deleted {
+				continue
+			}
+		}
+		if !s.tr.isSubscribed("event." + name) {
+			s.violate("C09", "c", "unsubscribed-in-use", "at quiescence %s but event.%s is not subscribed", why, name)
+		}
+	}
 	s.checkIntervals(true)
 	s.accessQuiescence()
 	s.checkGauges(false)
+}
+
+// unansweredShape classifies a request that never got a response by the known
+// findings whose precondition its history meets.
+func (s *Sim) unansweredShape(c *Client, r *CReq) string {
+	// the rids on which r may have held a provisional direct subscription
+	rids := []string{}
+	if r.Action == "subscribe" || r.Action == "get" {
+		rids = append(rids, r.RID)
+	}
+	if r.Action == "call" || r.Action == "auth" || r.Action == "new" {
+		s.mu.Lock()
+		for _, q := range s.tr.reqs {
+			if q.CIdx == c.CIdx && (q.Type == "call" || q.Type == "auth") && q.Seq > r.Seq && strings.HasPrefix(q.Outcome, "rid:") {
+				rids = append(rids, strings.ReplaceAll(q.Outcome[4:], c.CID, "{cid}"), q.Outcome[4:])
+			}
+		}
+		s.mu.Unlock()
+	}
+	for _, x := range rids {
+		if c.F3rids[x] {
+			return "unsubscribed-while-pending"
+		}
+	}
+	for _, x := range rids {
+		// F-3: an unsubscribe request on that rid succeeded after r was sent
+		for _, o := range c.ReqL {
+			if o.Action == "unsubscribe" && o.RID == x && o.ID > r.ID && o.Resp != nil && o.Resp.Error == nil {
+				return "unsubscribed-while-pending"
+			}
+		}
+	}
+	for _, x := range rids {
+		// F-3b: an unsubscribe event for that rid arrived after r was sent
+		if at, ok := c.Revoked[x]; ok && at >= r.Step {
+			return "unsubscribe-event-while-pending"
+		}
+	}
+	if (r.Action == "call" || r.Action == "new") && s.callAccessDropped(c, r) {
+		return "call-access-callback-dropped"
+	}
+	return "plain"
+}
+
+// callAccessDropped: the access request made for call/new request r was
+// answered, yet no call request followed (known finding F-11: the verdict was
+// handed to a Subscription object that had been disposed in the meantime).
+func (s *Sim) callAccessDropped(c *Client, r *CReq) bool {
+	name, _ := splitRID(c.expandCID(r.RID))
+	m := r.CallM
+	if r.Action == "new" {
+		m = "new"
+	}
+	s.mu.Lock()
+	defer s.mu.Unlock()
+	accessAnswered := false
+	calls := 0
+	for _, q := range s.tr.reqs {
+		if q.CIdx != c.CIdx || q.Name != name {
+			continue
+		}
+		if q.Type == "access" && q.Delivered && q.Seq > r.Seq {
+			accessAnswered = true
+		}
+		if q.Type == "call" && q.Method == m {
+			calls++
+		}
+	}
+	// client requests for the same method on the same rid sent at or after r
+	same := 0
+	for _, o := range c.ReqL {
+		om := o.CallM
+		if o.Action == "new" {
+			om = "new"
+		}
+		if o.RID == r.RID && (o.Action == "call" || o.Action == "new") && om == m {
+			same++
+		}
+	}
+	return accessAnswered && calls < same
+}
+
+// resultRIDRevoked: the service answered a call/auth of this connection with a
+// resource response, and the client received an unsubscribe event for that
+// resource after request r was sent (known finding F-3b).
+func (s *Sim) resultRIDRevoked(c *Client, r *CReq) bool {
+	s.mu.Lock()
+	var rids []string
+	for _, q := range s.tr.reqs {
+		if q.CIdx == c.CIdx && (q.Type == "call" || q.Type == "auth") && q.Seq > r.Seq && strings.HasPrefix(q.Outcome, "rid:") {
+			rids = append(rids, strings.ReplaceAll(q.Outcome[4:], c.CID, "{cid}"), q.Outcome[4:])
+		}
+	}
+	s.mu.Unlock()
+	for _, x := range rids {
+		if at, ok := c.Revoked[x]; ok && at >= r.Step {
+			return true
+		}
+	}
+	return false
+}
+
+// getPending: a get request for rid's resource name has not been delivered yet.
+func (s *Sim) getPending(rid string) bool {
+	name, _ := splitRID(rid)
+	s.mu.Lock()
+	defer s.mu.Unlock()
+	for _, q := range s.tr.reqs {
+		if q.Type == "get" && q.Name == name && !q.Delivered {
+			return true
+		}
+	}
+	return false
+}
+
+// accessRefused: an access request for (c, rid) sent after client request r
+// was answered with anything but a get grant.
+func (s *Sim) accessRefused(c *Client, rid string, r *CReq) bool {
+	name, _ := splitRID(c.expandCID(rid))
+	s.mu.Lock()
+	defer s.mu.Unlock()
+	for _, q := range s.tr.reqs {
+		if q.Type == "access" && q.CIdx == c.CIdx && q.Name == name && q.Seq > r.Seq && q.Answered {
+			if !strings.HasPrefix(q.Outcome, "acc:") || !strings.Contains(q.Outcome, `"get":true`) {
+				return true
+			}
+		}
+	}
+	return false
 }
 
 // checkConvergence is C01.
@@ -274,7 +429,7 @@ func (s *Sim) checkConvergence(c *Client) {
 		if h.Kind == 'e' {
 			s.stat("oracle.C01.b", 1)
 			if !s.errorJustified(c, rid, res, v) {
-				s.violate("C01", "b", "unjustified-error", "client %s holds error placeholder %s for %s but no get for it failed", c.Name, h.Err.Code, rid)
+				c.violate("C01", "b", "unjustified-error", "client %s holds error placeholder %s for %s but no get for it failed", c.Name, h.Err.Code, rid)
 			}
 			continue
 		}
@@ -282,13 +437,17 @@ func (s *Sim) checkConvergence(c *Client) {
 			s.stat("exempt.deleted", 1)
 			continue
 		}
+		if h.Ambiguous {
+			s.stat("exempt.error_entry_for_held_resource", 1)
+			continue
+		}
 		s.stat("oracle.C01.a", 1)
 		if v == nil || v.Announced == nil {
-			s.violate("C01", "a", "no-source", "client %s holds data for %s which the service never announced", c.Name, rid)
+			c.violate("C01", "a", "no-source", "client %s holds data for %s which the service never announced", c.Name, rid)
 			continue
 		}
 		if v.Deleted {
-			s.violate("C03", "d", "delete-lost", "client %s still holds %s as live although the service deleted it and everything has been delivered", c.Name, rid)
+			c.violate("C03", "d", "delete-lost", "client %s still holds %s as live although the service deleted it and everything has been delivered", c.Name, rid)
 			continue
 		}
 		if s.refetchFailed[v] {
@@ -296,13 +455,19 @@ func (s *Sim) checkConvergence(c *Client) {
 			continue
 		}
 		if byte(h.Kind) != v.Announced.Kind {
-			s.violate("C01", "a", "kind", "client %s holds %s as %c but the service announced %c", c.Name, rid, h.Kind, v.Announced.Kind)
+			c.violate("C01", "a", "kind", "client %s holds %s as %c but the service announced %c", c.Name, rid, h.Kind, v.Announced.Kind)
 			continue
 		}
 		want := v.Announced.clientJSON(c.Proto)
 		got := c.resJSON(h)
 		if !jsonEqual(want, got) {
-			s.violate("C01", "a", "diverged", "client %s (protocol %d) holds %s = %s but the service last announced %s", c.Name, c.Proto, rid, got, want)
+			shape := "diverged"
+			if h.iv != nil && c.handedBefore(h.iv) {
+				// known finding F-13: a resource that is sent to the same client a second
+				// time carries the snapshot taken when it was first loaded
+				shape = "diverged-resent"
+			}
+			c.violate("C01", "a", shape, "client %s (protocol %d) holds %s = %s but the service last announced %s", c.Name, c.Proto, rid, got, want)
 		}
 	}
 }
@@ -337,6 +502,10 @@ func (s *Sim) checkIntervals(quiescent bool) {
 				continue
 			}
 			if c.Tainted != "" {
+				continue
+			}
+			if h := c.Cache[iv.RID]; h != nil && h.iv == iv && h.Ambiguous {
+				s.stat("exempt.error_entry_for_held_resource", 1)
 				continue
 			}
 			open := !iv.Closed && c.State == "open" && !c.eofSeen()
@@ -434,7 +603,11 @@ func (s *Sim) checkInterval(c *Client, iv *Interval, mustReachTail bool) {
 		return
 	}
 	if lastErr == "" {
-		s.violate("C03", "c", "snapshot-unmatched", "client %s was handed %s = %s at step %d, which is not a state the service announced", c.Name, iv.RID, iv.Snapshot, iv.StartStep)
+		sh := "snapshot-unmatched"
+		if c.handedBefore(iv) {
+			sh += "-resent"
+		}
+		c.violate("C03", "c", sh, "client %s was handed %s = %s at step %d, which is not a state the service announced", c.Name, iv.RID, iv.Snapshot, iv.StartStep)
 		return
 	}
 	clause := "c"
@@ -445,7 +618,10 @@ func (s *Sim) checkInterval(c *Client, iv *Interval, mustReachTail bool) {
 	} else if lastShape == "reordered" {
 		clause = "a"
 	}
-	s.violate("C03", clause, lastShape, "client %s, resource %s (handed over at step %d): %s", c.Name, iv.RID, iv.StartStep, lastErr)
+	if c.handedBefore(iv) {
+		lastShape += "-resent"
+	}
+	c.violate("C03", clause, lastShape, "client %s, resource %s (handed over at step %d): %s", c.Name, iv.RID, iv.StartStep, lastErr)
 }
 
 func (s *Sim) diagnoseMismatch(iv *Interval, i int, want func(j int) (string, string, bool)) (string, string) {
@@ -489,11 +665,11 @@ func (s *Sim) checkIntervalRelaxed(c *Client, iv *Interval, v *Variant, mustReac
 		}
 		pos := *d.Seq
 		if last >= 0 && pos == last {
-			s.violate("C03", "b", "duplicate", "client %s, %s: custom event seq %d delivered twice", c.Name, iv.RID, pos)
+			c.violate("C03", "b", "duplicate", "client %s, %s: custom event seq %d delivered twice", c.Name, iv.RID, pos)
 			return
 		}
 		if last >= 0 && pos < last {
-			s.violate("C03", "a", "reordered", "client %s, %s: custom event seq %d delivered after seq %d", c.Name, iv.RID, pos, last)
+			c.violate("C03", "a", "reordered", "client %s, %s: custom event seq %d delivered after seq %d", c.Name, iv.RID, pos, last)
 			return
 		}
 		if last >= 0 {
@@ -501,7 +677,7 @@ func (s *Sim) checkIntervalRelaxed(c *Client, iv *Interval, v *Variant, mustReac
 			for q := last + 1; q < pos && q < len(v.Stream); q++ {
 				k := v.Stream[q].Kind
 				if k != "snap" && k != "change" && k != "add" && k != "remove" && k != "delete" && k != "reaccess" && !v.Stream[q].Lost {
-					s.violate("C03", "c", "gap", "client %s, %s: custom event seq %d was skipped (delivered %d then %d)", c.Name, iv.RID, q, last, pos)
+					c.violate("C03", "c", "gap", "client %s, %s: custom event seq %d was skipped (delivered %d then %d)", c.Name, iv.RID, q, last, pos)
 					return
 				}
 			}
@@ -515,7 +691,7 @@ func (s *Sim) checkIntervalRelaxed(c *Client, iv *Interval, v *Variant, mustReac
 		for q := last + 1; q < len(v.Stream); q++ {
 			k := v.Stream[q].Kind
 			if k != "snap" && k != "change" && k != "add" && k != "remove" && k != "delete" && k != "reaccess" && !v.Stream[q].Lost {
-				s.violate("C03", "d", "tail-lost", "client %s, %s: custom event seq %d was never delivered although the client still holds the resource", c.Name, iv.RID, q)
+				c.violate("C03", "d", "tail-lost", "client %s, %s: custom event seq %d was never delivered although the client still holds the resource", c.Name, iv.RID, q)
 				return
 			}
 		}
